@@ -697,6 +697,49 @@ def case_bu_chain(rng):
     return sorted(lines, key=lambda l: int(l.split()[1])) + hist
 
 
+def case_bu_wide(rng):
+    """C04: a WIDE queue — k pairs M_i -> L_i that are all scheduled directly by one changed source (every M_i also reads
+    it), and switch tasks that newly require one of the queued tasks in the middle of the build (require_scheduled_now
+    removes an element from the middle of the queue): the remaining queued tasks must still run dependencies first."""
+    k = rng.randint(3, 6)
+    nsw = rng.randint(1, 2)
+    S = rng.choice([1, 101])
+    W = [2, 102][:nsw]
+    first = nsw + 1
+    M = [first + 2 * i for i in range(k)]
+    L = [first + 2 * i + 1 for i in range(k)]
+    oc = lambda: rng.choice([0, 0, 0, 5])
+    lines = []
+    for j in range(nsw):
+        tg = rng.sample(M + L, rng.randint(1, 2))
+        then = " ".join(f"req {t} {oc()}" for t in tg) + " ret " + ("v 1" if len(tg) == 1 else "+ v 1 v 2")
+        els = "ret k 0" if rng.random() < 0.7 else f"req {rng.choice(M + L)} {oc()} ret v 1"
+        lines.append(f"task {j + 1} read {W[j]} 0 if = v 0 k 1 {then} {els}")
+    for i in range(k):
+        own = rng.random() < 0.25
+        src = 10 + i if own else S
+        lines.append(f"task {L[i]} read {src} {rng.choice([0, 0, 1])} ret " + rng.choice(["v 0", "+ v 0 k 1", "% v 0"]))
+        if rng.random() < 0.8: lines.append(f"task {M[i]} read {S} 0 req {L[i]} {oc()} ret + v 0 v 1")
+        else: lines.append(f"task {M[i]} req {L[i]} {oc()} ret + v 0 k {i}")
+    n = L[-1]
+    hist = [f"set {S} {rng.randint(0, 3)}"] + [f"set {w} 0" for w in W] + [f"set {10 + i} {rng.randint(0, 3)}" for i in range(k)]
+    order = list(range(1, n + 1))
+    if rng.random() < 0.5: rng.shuffle(order)         # creation order decides the ranks
+    hist += ["session"] + [f"req {x}" for x in order] + ["endsession"]
+    for _ in range(rng.randint(2, 4)):
+        changed = [S]
+        hist.append(f"set {S} {rng.randint(0, 6)}")
+        for w in W:
+            if rng.random() < 0.7: hist.append(f"set {w} {rng.randint(0, 1)}"); changed.append(w)
+        for i in range(k):
+            if rng.random() < 0.2: hist.append(f"set {10 + i} {rng.randint(0, 5)}"); changed.append(10 + i)
+        rng.shuffle(changed)
+        hist += ["session", "bu " + " ".join(map(str, changed))]
+        for _ in range(rng.randint(0, 1)): hist.append(f"req {rng.randint(1, n)}")
+        hist += ["endsession", "session", "reqknown", "endsession", "cleanknown"]
+    return sorted(lines, key=lambda l: int(l.split()[1])) + hist
+
+
 def case_erosion(rng):
     """C05: chains reader -> mid -> ... -> generator in which an intermediate task drops its require (same output) so that
     the reader keeps a read of a generated resource without a path to the generator (finding K4), followed by builds
